@@ -122,13 +122,15 @@ def run_check(prop, tier, seed, replay=None):
         cov["obligation_list"] += [f"static theorem {n} (parametric model proof)" for n in names]
 
     # 2. regenerate targets from the current tree
+    from concurrent.futures import ThreadPoolExecutor
+    pool = ThreadPoolExecutor(max_workers=int(os.environ.get("VERIF_JOBS", "6")))
     targets = prop.targets(tier)
     for t in targets:
         try:
             t.generate(bdir)
         except nir2coq_unsupported() as e:
             raise HarnessFault(f"translator cannot express target {t.name}: {e}")
-        ok, out, secs = core.coqc(t.gen_path, extra_dirs=[(bdir, "Run")])
+    for t, (ok, out, secs) in zip(targets, pool.map(lambda t: core.coqc(t.gen_path, extra_dirs=[(bdir, "Run")]), targets)):
         if not ok:
             raise HarnessFault(f"generated {t.gen_path} does not compile:\n{out[-2000:]}")
 
@@ -147,9 +149,11 @@ def run_check(prop, tier, seed, replay=None):
 
     # 3. translator validation against Amaranth's simulator
     impl_traces = {}
-    for t in targets:
-        trs = [t.add_ticks(tr) for tr in prop.traces(t, rng, tier)]
-        info, outs = core.validate_translation(t, trs, bdir)
+    all_trs = [[t.add_ticks(tr) for tr in prop.traces(t, rng, tier)] for t in targets]   # rng used serially
+    all_outs = [t.simulate(trs) for t, trs in zip(targets, all_trs)]                      # pysim: serial
+    for t, trs, (info, outs) in zip(targets, all_trs,
+                                    pool.map(lambda a: core.validate_translation(a[0], a[1], bdir, outs=a[2]),
+                                             zip(targets, all_trs, all_outs))):
         info["target"] = t.name; info["cells"] = t.ncells; info["gen_sha"] = t.gen_sha
         cov["translator_validation"].append(info)
         impl_traces[t.name] = (trs, outs)
